@@ -234,7 +234,8 @@ where
             }
             Decoded::Packet(Packet::PublishRelease(pkt), size) => {
                 if self.inner.info.borrow().inflight.contains(&pkt.packet_id) {
-                    self.inner.control(ProtocolMessage::pubrel(pkt, size)).await
+                    let id = pkt.packet_id.get();
+                    self.inner.control_pkt(ProtocolMessage::pubrel(pkt, size), id).await
                 } else {
                     Ok(Some(Encoded::Packet(codec::Packet::PublishComplete(
                         codec::PublishAck2 {
@@ -312,26 +313,44 @@ where
     T: Service<Publish, Response = Either<Publish, PublishAck>, Error = E>,
     C: Service<ProtocolMessage, Response = ProtocolMessageAck, Error = DispatcherError<E>>,
 {
+    let qos2 = pkt.qos() == crate::types::QoS::ExactlyOnce;
     let ack = match ctx.call(svc, pkt).await.map_err(DispatcherError::Service)? {
         Either::Right(ack) => ack,
         Either::Left(pkt) => {
             let (pkt, payload) = pkt.into_inner();
-            return inner
-                .control_pkt(ProtocolMessage::publish(pkt, payload, packet_size), packet_id)
-                .await;
+            let msg = ProtocolMessage::publish(pkt, payload, packet_size);
+            if !qos2 {
+                return inner.control_pkt(msg, packet_id).await;
+            }
+            // QoS 2: packet id stays reserved until PUBREL, unless PUBREC reports an error
+            let res = inner.control_pkt(msg, 0).await?;
+            if let Some(Encoded::Packet(Packet::PublishReceived(ref ack))) = res
+                && ack.reason_code as u8 >= 0x80
+            {
+                inner.info.borrow_mut().inflight.remove(&ack.packet_id);
+            }
+            return Ok(res);
         }
     };
 
     if let Some(id) = NonZeroU16::new(packet_id) {
         log::trace!("Sending publish ack for {packet_id:?} id");
-        inner.info.borrow_mut().inflight.remove(&id);
         let ack = codec::PublishAck {
             packet_id: id,
             reason_code: ack.reason_code,
             reason_string: ack.reason_string,
             properties: ack.properties,
         };
-        Ok(Some(Encoded::Packet(Packet::PublishAck(ack))))
+        if qos2 {
+            // packet id stays reserved until PUBREL, unless PUBREC reports an error
+            if ack.reason_code as u8 >= 0x80 {
+                inner.info.borrow_mut().inflight.remove(&id);
+            }
+            Ok(Some(Encoded::Packet(Packet::PublishReceived(ack))))
+        } else {
+            inner.info.borrow_mut().inflight.remove(&id);
+            Ok(Some(Encoded::Packet(Packet::PublishAck(ack))))
+        }
     } else {
         Ok(None)
     }
